@@ -26,7 +26,7 @@ REQUIRED_DEEP = ["fact_regex_compiled_as_ecmascript", "ecma_anchored_accepts_iff
                  "fact_resolve_input_descriptor_values_source",
                  "values_both_mem", "match_params_sound", "match_formats_sound", "formats_match_sound", "presenter_format_shared",
                  "fact_presenter_build_submission_source", "fact_formats_match_source", "fact_formats_normalize_source", "fact_formats_constructors_source",
-                 "registration_rejects_surplus", "registration_total", "fact_registration_source",
+                 "registration_rejects_surplus", "registration_total", "fact_registration_source", "client_registration_sound", "client_registration_total", "client_registration_accepted_end_to_end", "activate_ok_iff_some_did_registered", "activate_nocred_iff_all_dids_lack_credentials", "fact_client_registration_source",
                  "fact_envelope_as_is_bytes", "fact_envelope_unmarshal_source", "fact_envelope_marshal_source", "fact_try_parse_json_array_source", "fact_parse_envelope_source",
                  "envelope_unmarshal_total", "envelope_array_iff", "envelope_single_iff", "envelope_string_wrapping_transparent", "envelope_json_round_trip", "envelope_marshal_form",
                  "rematch_constraints", "rematch_stable_basic", "wallet_verifier_agree_basic_unambiguous", "disagree_witness_is_ambiguous"]
@@ -1108,6 +1108,7 @@ def run(ctx):
     # ---- discovery validateRegistration (PE part) against the Lean model (NutsModel/C12/Registration.lean, driver op
     #      `registration`) + direct oracle against the pe leg's own Match result on the same wallet
     reg = {r["n"]: r["reg"] for r in disc_results if "reg" in r and r["n"] in ops_by_n}
+    creg = {r["n"]: (r.get("creg", "-"), r.get("rt", "-")) for r in disc_results if "reg" in r and r["n"] in ops_by_n}
     if reg:
         r_lines, r_want = [], []
         for k_, raw in enumerate(ops_raw):
@@ -1125,7 +1126,46 @@ def run(ctx):
             f.write("\n".join(r_lines) + "\n")
         okr, errr = ctx.model("C12", r_ops, r_model)
         ctx.oblige("model-driver-runs:registration", okr, errr[-400:])
-        r_got = [l for l in ctx.read_lines(r_model) if l.startswith("registration ")]
+        r_all = ctx.read_lines(r_model)
+        r_got = [l for l in r_all if l.startswith("registration ")]
+        # ---- the CLIENT side (discovery/client.go findCredentialsAndBuildPresentation, model clientRegistrationCreds) and the
+        #      round trip client -> server, on the same wallets
+        c_got = [l for l in r_all if l.startswith("clientreg ")]
+        t_got = [l for l in r_all if l.startswith("roundtrip ")]
+        c_bad = 0
+        for (k, n_, wal), cline, tline in zip(r_want, c_got, t_got):
+            got, rt = creg.get(n_, ("-", "-"))
+            if got == "-":
+                continue
+            c_, _, _ = load_case(k)
+            if got.startswith("ok:"):
+                idx = [x for x in got[3:].split(",") if x != ""]
+                if "?" in idx:
+                    creport("C12:client-registration:foreign-credential", f"the registration presentation holds a credential that is not in the wallet ({got})", k)
+                    continue
+                got_names = "ok:" + ",".join(c_["creds"][int(i_)]["name"] for i_ in idx if int(i_) < len(c_["creds"]))
+            else:
+                got_names = got
+            counts["client-registration:" + got.split(":")[0] + (":" + got.split(":")[1] if got.startswith("err") else "")] += 1
+            if "clientreg " + got_names != cline:
+                c_bad += 1
+                creport("C12:client-registration:model-differs", f"findCredentialsAndBuildPresentation presents {got_names}, Lean model says {cline}", k)
+                continue
+            pe_line = impl[k] if k < len(impl) else ""
+            mm = re.match(r"match ok vcs=\[(.*?)\]", pe_line)
+            # direct oracle: the client registers exactly what Match selects on its wallet, and reports missing credentials
+            # exactly when Match does (no partial / padded registration)
+            if got.startswith("ok:") and (not mm or got_names[3:] != mm.group(1)):
+                creport("C12:client-registration:presents-other-than-matched", f"registration presents [{got_names[3:]}] but Match on the wallet selects {pe_line[:80]}", k)
+            if got == "err:nocred" and pe_line != "match err:nocred":
+                creport("C12:client-registration:nocred-invented", f"client reports missing credentials but Match says {pe_line[:60]}", k)
+            if got.startswith("ok:") and rt != "err:validity":
+                counts["client-server-roundtrip:" + rt] += 1
+                if "roundtrip " + rt != tline:
+                    c_bad += 1
+                    creport("C12:client-registration:roundtrip-model-differs", f"server says {rt} to the client's own registration, Lean model says {tline}", k)
+        ctx.oblige("correspondence:client-registration-model=impl", c_bad == 0 and len(c_got) == len(r_want) and len(t_got) == len(r_want), f"{c_bad} of {len(r_want)} client registrations differ from the model")
+        ctx.cov["client_registrations_vs_model"] = sum(1 for (_, n_, _) in r_want if creg.get(n_, ("-",))[0] != "-")
         r_bad = 0
         for (k, n_, wal), mline in zip(r_want, r_got):
             got = reg[n_]
@@ -1148,6 +1188,34 @@ def run(ctx):
                 creport("C12:registration:match-error-invented", "registration says the definition is not matched although Match succeeds", k)
         ctx.oblige("correspondence:registration-model=impl", r_bad == 0 and len(r_got) == len(r_want), f"{r_bad} of {len(r_want)} registrations differ from the model")
         ctx.cov["registrations_vs_model"] = len(r_want)
+    # ---- discovery/client.go activate: the DID loop of the REAL clientRegistrationManager on every outcome sequence of up to
+    #      three DIDs vs the Lean model (activateVerdict) + direct oracle
+    act_results = consumer_leg(DISC_PKG, DISC_HARNESS, "c12disc", "TestVerifC12DiscoveryActivate", "discovery.activate.out", 0)
+    if act_results:
+        a_ops, a_model = os.path.join(out, "act.ops.jsonl"), os.path.join(out, "act.model.out")
+        with open(a_ops, "w") as f:
+            f.write("\n".join(json.dumps({"op": "activate", "results": r["results"]}) for r in act_results) + "\n")
+        oka, erra = ctx.model("C12", a_ops, a_model)
+        ctx.oblige("model-driver-runs:activate", oka, erra[-400:])
+        a_got = [l for l in ctx.read_lines(a_model) if l.startswith("activate ")]
+        a_bad = 0
+        for r, mline in zip(act_results, a_got):
+            res_, v = r["results"], r["verdict"]
+            counts["activate:" + v] += 1
+            replay = json.dumps({"op": "activate", "results": res_})
+            if "activate " + v != mline:
+                a_bad += 1
+                ctx.violation("C12:activate:model-differs", f"activate on DID outcomes {res_} = {v}, Lean model says {mline}", "activate-model-differs.jsonl", replay)
+            if (v == "ok") != ("registered" in res_):
+                ctx.violation("C12:activate:verdict-ignores-registered-did", f"activate on DID outcomes {res_} = {v}", "activate-verdict.jsonl", replay)
+            if (v == "err:failed:nocred") != (len(res_) > 0 and all(x == "nocred" for x in res_)):
+                ctx.violation("C12:activate:missing-credentials-misreported", f"activate on DID outcomes {res_} = {v}", "activate-nocred.jsonl", replay)
+            if r.get("pending", 0) != 0:
+                ctx.violation("C12:activate:did-skipped", f"activate on DID outcomes {res_} left {r['pending']} DID(s) with credentials unregistered", "activate-did-skipped.jsonl", replay)
+        ctx.oblige("correspondence:activate-model=impl", a_bad == 0 and len(a_got) == len(act_results) and len(act_results) == 40, f"{a_bad} of {len(act_results)} activate runs differ from the model")
+        ctx.cov["activate_sequences_vs_model"] = len(act_results)
+    else:
+        ctx.oblige("leg-runs:activate", False, "discovery activate leg produced no output")
     for r in disc_results:
         if r["n"] not in ops_by_n:
             continue
